@@ -26,7 +26,8 @@ res = json.loads((ROOT / "seeded" / "results.json").read_text()) if (ROOT / "see
 out.append("### 14.2 Changes written by independent sub-agents (`seeded/<id>/`)\n")
 out.append("Each sub-agent saw only the property text and a scratch worktree. `a*` = first round, `b*` = second round "
            "(asked for cooperating edits / carried-over state / unusual environments), `c*`/`d*`/`e*` = adversarial rounds (asked for triggers a "
-           "generator-plus-reference-model checker is least likely to hit; `e*` also got the list of triggers already used), `n*`/`n2*` = property-preserving changes "
+           "generator-plus-reference-model checker is least likely to hit; `e*` also got the list of triggers already used; `f*` = a further such round after all earlier ones were caught - "
+           "18 of its 21 changes were missed at first, see section 9 for what each one added to the workloads), `n*`/`n2*`/`n3*` = property-preserving changes "
            "(the check must stay quiet).\n")
 out.append("| id | what the change does (from the author's meta) | quick check | caught as | replay on changed tree |")
 out.append("|---|---|---|---|---|")
@@ -56,6 +57,11 @@ out.append("* `C10-e2` needs a registered check that rejects with an `Err` whose
            "stub plug-in stays within the contract and never produces such a check.")
 out.append("* `C19-e3` needs the scheduler to be called from two threads (thread-local static state). The property is about call "
            "sequences; the generated code, the driver and the property text contain no thread.")
+out.append("* `C16-f1` makes the ENCODER write a string's UTF-8 bytes behind a character-count prefix. Only non-ASCII strings are "
+           "affected, which the pinned codec cannot represent at all (`ord(x)` into a u8, `decode('ascii')`); read by the canonical "
+           "format the changed encoder's image simply carries trailing bytes, so its prefixes are not truncated messages and the "
+           "decoder is right not to raise. wiresim gates every message on 'the complete image decodes to the intended value' and "
+           "skips this one; the fault is the encoder's (C01/C02, not applicable here), not truncation detection.")
 out.append("* `C10-c3` changes what a plug-in CHECK rejects (`impl <p> for <EnumName>`), not the gate: with it no registered check "
            "rejects any more, so C10 holds as stated; that is C09's verdict specification (not applicable here). Kept as a "
            "property-preserving change: gensim stays quiet.")
